@@ -1,14 +1,14 @@
 #!/bin/sh
-# usage: bq.sh <benign-or-seeded dir> <props...> : apply the patch in the scratch worktree /tmp/sm-wt and run props with the lead binary
+# usage: bq.sh <benign-or-seeded dir> <props...> : apply the patch in the scratch worktree /tmp/bq-wt and run props with the lead binary
 d=$1; shift
 BIN=${SIOTCHECK:-/verif/bin/siotcheck-lead}
-git -C /tmp/sm-wt checkout -q -- . && git -C /tmp/sm-wt clean -fdq
-git -C /tmp/sm-wt apply /verif/$d/patch.diff || exit 3
+git -C /tmp/bq-wt checkout -q -- . && git -C /tmp/bq-wt clean -fdq
+git -C /tmp/bq-wt apply /verif/$d/patch.diff || exit 3
 for p in "$@"; do
   T=$(mktemp -d); mkdir $T/evidence; cp /verif/known-findings.json $T
-  SIOT_REPO=/tmp/sm-wt SIOT_VERIF=$T $BIN -prop $p > $T/out 2>&1; e=$?
+  SIOT_REPO=/tmp/bq-wt SIOT_VERIF=$T $BIN -prop $p > $T/out 2>&1; e=$?
   echo "$d $p exit=$e"
   grep -E "C[0-9][0-9]/R[0-9]|CHECKER-ERROR" $T/out | grep -v "^rule " | cut -c1-330 | head -${BQ_LINES:-4}
   rm -rf $T
 done
-git -C /tmp/sm-wt checkout -q -- . && git -C /tmp/sm-wt clean -fdq
+git -C /tmp/bq-wt checkout -q -- . && git -C /tmp/bq-wt clean -fdq
